@@ -249,6 +249,8 @@ def map_type(cpptype, real='double', classes=()):
         base = 'vvec_d'
     elif t in ('vector<int>',):
         base = 'vvec_i'
+    elif t in ('vector<real>::const_iterator', 'vector<double>::const_iterator'):
+        return ('const ' + real + ' *', 'ptr')   # R17: an iterator into a vector<real> is a pointer to its elements
     elif re.match(r'^[A-Z]\w*(::\w+)?$', t):
         base = 'struct ' + t.replace('::', '_')
     elif t in ('mask', 'captype', 'component', 'convention', 'zonespec', 'aux'):
@@ -753,6 +755,35 @@ class Translator:
             body = body[:m.start()] + '{ %s %s = verif_parse_real(); }' % (' '.join(keep), rest.group(1)) + '\n' * body[m.start():end].count('\n') + body[end:]
             self.report.hit('R15.istringstream_extract')
             self.report.dropped.append('number parsing: ' + re.sub(r'\s+', ' ', arg)[:120])
+        return body
+
+    # ---- R16: try { body } catch (...) { handler }  ->  body   (exceptions raised by iostream / allocation are not modelled)
+    def rule_try_catch(self, body):
+        while True:
+            m = re.search(r'(?<![\w.>])try\s*\{', body)
+            if not m:
+                break
+            bo = m.end() - 1
+            bc = match_close(body, bo, '{', '}')
+            rest = body[bc + 1:]
+            end = bc + 1
+            handlers = []
+            while True:
+                cm = re.match(r'\s*catch\s*\(', body[end:])
+                if not cm:
+                    break
+                po = end + cm.end() - 1
+                pc = match_close(body, po)
+                ho = body.index('{', pc)
+                hc = match_close(body, ho, '{', '}')
+                handlers.append(body[end:hc + 1])
+                end = hc + 1
+            if not handlers:
+                raise ExtractError('try without catch')
+            dropped = ''.join(handlers)
+            self.report.dropped.append('catch handler: ' + re.sub(r'\s+', ' ', dropped)[:160])
+            self.report.hit('R16.try_catch_reduced_to_try_body')
+            body = body[:m.start()] + '{' + body[bo + 1:bc] + '}' + '\n' * dropped.count('\n') + body[end:]
         return body
 
     # ---- R8 misc removals
